@@ -19,13 +19,10 @@ Qed.
 (** blocked in PutOne / PutMulti of the flow buffer *)
 Lemma putfail_enabled g s t :
   g_kind g = Flow -> k_pc (p_calls s t) = PPut -> k_done (p_calls s t) = true -> k_ctxput (p_calls s t) = true ->
-  (g_putfail0 g = true \/ p_st s <> 0) ->
   exists s', pstep g s (LPutFail t) = Some s' /\ k_pc (p_calls s' t) = PRet /\
              k_ret (p_calls s' t) = Some (errs_for (p_calls s t) ECtx) /\ p_q s' = p_q s /\ p_c2s s' = p_c2s s.
 Proof.
-  intros Ek Epc Ed Ec Hst. eexists. cbn [pstep]. rewrite Epc, Ek, Ed, Ec.
-  assert ((g_putfail0 g || negb (N.eqb (p_st s) 0)) = true) as ->.
-  { destruct Hst as [->|H]; [reflexivity|]. apply N.eqb_neq in H. rewrite H. now rewrite orb_true_r. }
+  intros Ek Epc Ed Ec. eexists. cbn [pstep]. rewrite Epc, Ek, Ed, Ec.
   cbn. split; [reflexivity|]. cbn. rewrite upd_same. cbn. auto.
 Qed.
 
@@ -38,9 +35,9 @@ Lemma syncfail_enabled g s t :
   sync_user (p_calls s t) = true -> k_ctx (p_calls s t) = CtxDeadline -> k_done (p_calls s t) = true ->
   exists s1, pstep g s (LSyncFail t true) = Some s1 /\ k_pc (p_calls s1 t) = PDecr true /\
              k_res (p_calls s1 t) = errs_for (p_calls s t) ECtx /\
-             exists s2, pstep g s1 (LDecr t) = Some s2 /\
-                        (k_ret (p_calls s2 t) = Some (errs_for (p_calls s t) ECtx) \/
-                         (k_pc (p_calls s2 t) = PBgAfter /\ k_res (p_calls s2 t) = errs_for (p_calls s t) ECtx)).
+             exists path s2, (path = [LDecr t] \/ path = [LDecr t; LBgAfter t; LDecr t]) /\
+                             prun g path s1 = Some s2 /\
+                             k_ret (p_calls s2 t) = Some (errs_for (p_calls s t) ECtx).
 Proof.
   intros Hs Hc Hd. unfold sync_user in Hs.
   set (c1 := with_pc (with_res (p_calls s t) (errs_for (p_calls s t) ECtx)) (PDecr true)).
@@ -49,8 +46,16 @@ Proof.
   { cbn [pstep]. rewrite Hs, Hc, Hd. reflexivity. }
   assert (Ec : p_calls s1 t = c1) by apply calls_bg_same.
   exists s1. split; [exact E1|]. rewrite Ec. split; [reflexivity|split; [reflexivity|]].
-  cbn [pstep]. rewrite Ec. cbn [k_pc with_pc c1].
-  destruct (true && negb (Nat.eqb (pred (p_waits s1)) 0)); eexists; (split; [reflexivity|]); cbn; rewrite upd_same; cbn; auto.
+  destruct (negb (Nat.eqb (p_waits s1) 1)) eqn:Ew.
+  - (* others are counted: background() (a no-op here, LSyncFail has called it), then the plain decrement *)
+    exists [LDecr t; LBgAfter t; LDecr t]. eexists. split; [now right|].
+    cbn [prun pstep]. rewrite Ec. cbn [k_pc with_pc c1]. rewrite Ew. cbn [andb].
+    cbn [p_calls set_call set_calls]. rewrite upd_same. cbn [k_pc with_pc].
+    rewrite calls_bg_same. cbn [k_pc with_pc andb].
+    split; [reflexivity|]. cbn. rewrite upd_same. reflexivity.
+  - exists [LDecr t]. eexists. split; [now left|].
+    cbn [prun pstep]. rewrite Ec. cbn [k_pc with_pc c1]. rewrite Ew. cbn [andb].
+    split; [reflexivity|]. cbn. rewrite upd_same. reflexivity.
 Qed.
 
 (** the environment can always cancel a cancellable context that is not done yet *)
@@ -211,7 +216,7 @@ Proof.
     { apply (invs_same s); auto; unfold do_background; destruct (p_bg s); cbn; auto. }
     assert (Ec : p_calls (do_background s) = p_calls s) by (unfold do_background; destruct (p_bg s); reflexivity).
     eapply (invs_call (do_background s) _ t); [exact I1|reflexivity|reflexivity|intros u; reflexivity| |].
-    + cbn. auto.
+    + cbn. rewrite ?Ec. intros K. rewrite (s_start s IS t K) in Epc. discriminate.
     + rewrite ?Ec. live_solve Epc.
   - (* LPut *) destruct (k_pc (p_calls s t)) eqn:Epc; try discriminate.
     destruct (q_put (p_q s) (slot_of t (p_calls s t))) as [q'|] eqn:Eq; [|discriminate]. inversion H; subst; clear H.
@@ -303,12 +308,12 @@ Proof.
   - break_step H. inversion H; subst. apply (invs_same s); auto.
 Qed.
 
-Theorem invs_run g sched : forall s s', InvA s -> InvS s -> (g_kind g = Ring \/ g_putfail0 g = false) ->
+Theorem invs_run g sched : forall s s', InvA s -> InvS s ->
   prun g sched s = Some s' -> InvA s' /\ InvS s'.
 Proof.
-  induction sched as [|l r IH]; intros s s' IA IS Hg H; cbn [prun] in H.
+  induction sched as [|l r IH]; intros s s' IA IS H; cbn [prun] in H.
   - inversion H; subst; auto.
-  - destruct (pstep g s l) as [s1|] eqn:E; [|discriminate]. eapply IH; [| |exact Hg|exact H].
+  - destruct (pstep g s l) as [s1|] eqn:E; [|discriminate]. eapply IH; [| |exact H].
     + eapply inva_step; eauto.
     + eapply invs_step; eauto.
 Qed.
@@ -317,11 +322,10 @@ Qed.
     error for every command, is not (and never was) among the calls whose commands were put on the wire,
     and owns no queue slot. *)
 Theorem done_ctx_sends_nothing g sched s t :
-  (g_kind g = Ring \/ g_putfail0 g = false) ->
   prun g sched (p_init g) = Some s -> k_donestart (p_calls s t) = true ->
   k_pc (p_calls s t) = PRet /\ ~ In t (p_sent s) /\ ~ In t (map s_owner (q_pend (p_q s) ++ q_wr (p_q s))).
 Proof.
-  intros Hg H Hd. destruct (invs_run g sched _ _ (inva_init g) (invs_init g) Hg H) as [_ IS].
+  intros H Hd. destruct (invs_run g sched _ _ (inva_init g) (invs_init g) H) as [_ IS].
   split; [apply (s_start s IS t Hd)|split].
   - intros K. destruct (s_sent s IS t K) as (K1&_). congruence.
   - intros K. apply in_map_iff in K as (sl&E&Hsl). destruct (s_queue s IS sl Hsl) as (K1&_). rewrite E in K1. congruence.
